@@ -199,6 +199,13 @@ def run(ctx):
     msgs = msg_domain(ctx.env, ctx.quick)
     cases = []
     dk, dm = keys[0], msgs[0]
+    # messages that begin with the signer's own public-key bytes (the augmentation suite hashes
+    # pk || message: such messages must not be special)
+    from ..model import bls as _MB
+    for (kl, k) in keys[:3]:
+        pkb = _MB.sk_to_pk(k)
+        msgs.append(("own-pk-prefix:%s" % kl, pkb + b"abc"))
+        msgs.append(("own-pk-only:%s" % kl, pkb))
     for (kl, k) in keys:
         cases.append({"kl": kl, "ml": dm[0], "sk": hex(k), "msg": dm[1].hex()})
     for (ml, m) in msgs[1:]:
